@@ -206,8 +206,32 @@ def refused_adds(rng, n):
     return k
 
 
+def _twins(rng, n):
+    """Siblings whose names differ only in letter case (data / Data / DATA) or only by a trailing blank (the Verilog reader keeps
+    the blank that ends an escaped identifier:  '\\m$0 '  next to  '\\m$0'): names are free text, every one of them is legal."""
+    k = 0
+    for l in n.libraries:
+        for d in l.definitions:
+            for coll, mk in ((list(d.cables), lambda nm, x: d.create_cable(nm, wires=1)),
+                             (list(d.children), lambda nm, x: d.create_child(nm, reference=x.reference)),
+                             (list(d.ports), (lambda nm, x: d.create_port(nm, pins=1)) if not d.references else None)):
+                named = [x for x in coll if x.name and "[" not in x.name]
+                if not named or mk is None or rng.random() < 0.6:
+                    continue
+                x = rng.choice(named)
+                for nm in rng.sample([x.name.swapcase(), x.name.upper(), x.name.lower(), x.name + " ", " " + x.name, x.name.rstrip() + "  "], 2):
+                    if nm != x.name and not any(y.name == nm for y in coll):
+                        try:
+                            mk(nm, x)
+                            k += 1
+                        except ValueError:
+                            pass        # (EDIF policy: the identifier derived elsewhere may collide - not the point here)
+    return k
+
+
 def _decorate(rng, n, policy):
     colors = ["red", "blue", "Red"]
+    _decorate.twins = _twins(rng, n) if rng.random() < 0.6 else 0
     for l in n.libraries:
         l["color"] = rng.choice(colors)
         if policy == "EDIF" and l.name:
@@ -220,7 +244,10 @@ def _decorate(rng, n, policy):
                 if rng.random() < 0.7:
                     x["color"] = rng.choice(colors)
                 if rng.random() < 0.5 and x.name:
-                    x["EDIF.identifier"] = re.sub(r"[^A-Za-z0-9_]", "_", x.name)
+                    try:
+                        x["EDIF.identifier"] = re.sub(r"[^A-Za-z0-9_]", "_", x.name)
+                    except ValueError:
+                        pass        # a twin (other letter case, a trailing blank) already holds that identifier under the EDIF policy
 
 
 def roots_of(rng, n, must=()):
@@ -483,6 +510,7 @@ def run_case(ctx, i, rng):
                 ctx.count("netlists_with_a_definition_grafted_from_the_other_policy")
         decorate(rng, n, policy)
         ctx.count("refused_adds_in_history", decorate.refused)
+        ctx.count("case_and_blank_twins_planted", _decorate.twins)
         st = gen_ir.shape_stats(n)
         ck = Checker(ctx, rng, policy, st)
         roots = roots_of(rng, n, must=[graft])
